@@ -12,6 +12,7 @@ Not decided: merge/heap correctness, tie-breaking, LIMIT/OFFSET slicing (values)
 import re
 from .framework import RuleResult
 from .mir import Fn, op_const, switch_edges
+from .c07 import float_canon
 
 EXPLANATION = ("Decides constant/sibling-agreement rules of the comparable sort-key encoding "
                "(ComparableEncode impls, null bytes, DESC inversion) on MIR of every impl; these are necessary "
@@ -238,6 +239,11 @@ def run(ctx):
     # ---------------- IDXSPACE
     res.append(rule_idxspace(facts))
     res.append(rule_ties(facts))
+    res.append(float_canon(facts, "C08-KEYCANON", "the float sort-key encoding canonicalises NaN and the sign of zero before taking the bits",
+                           lambda i: i.endswith("sort_layout::ComparableEncode>::encode") and i.split(" as ")[0].lstrip("<") in ("f32", "f64", "half::f16", "half::binary16::f16"),
+                           ("to_bits",), True,
+                           "the sort key is the total-order transform of the raw bits: a NaN with the sign bit set (what 0.0/0.0 produces on x86) sorts before -inf while "
+                           "'NaN' sorts after +inf, and -0.0 sorts strictly before 0.0 although they are equal, which breaks the order of the following keys"))
     return res
 
 
